@@ -22,6 +22,9 @@ pub struct Config {
     pub focus: String,
     pub size_cap: usize,
     pub event_cap: usize,
+    /// C12: one run in eight lets the real encoder write hash containers with several elements
+    /// (their byte order differs from process to process: such runs stay out of the event-log digest)
+    pub unordered: bool,
 }
 
 struct Node {
@@ -103,6 +106,7 @@ struct Run<'a> {
     violations: Vec<Violation>,
     trace: Vec<String>,
     run_seed: u64,
+    unordered_run: bool,
 }
 
 impl Run<'_> {
@@ -122,8 +126,10 @@ impl Run<'_> {
             self.stats.add(&format!("probe.{k}"), n);
         }
         let ch = case_hash(&case, ev.outcome);
-        self.stats.note(ch);
-        self.stats.note(ev.meter.ticks);
+        if !self.unordered_run {
+            self.stats.note(ch);
+            self.stats.note(ev.meter.ticks);
+        }
         self.stats.distinct.insert(ch);
         self.stats.tuples.insert(format!("{}|{}|{}|{}", case.read_as, case.fault_kind, case.clause, ev.outcome));
         if self.stats.samples.len() < 5 && case.input.len() < 100 && case.fault.contains("->") {
@@ -156,7 +162,7 @@ pub fn run(cat: &Catalog, cfg: &Config, stats: &mut Stats, run_seed: u64) -> Vec
     let mut wl = root.derive("workload");
     let mut fl = root.derive("faults");
     let mut sc = root.derive("schedule");
-    let mut run = Run { cat, cfg, stats, violations: vec![], trace: vec![], run_seed };
+    let mut run = Run { cat, cfg, stats, violations: vec![], trace: vec![], run_seed, unordered_run: false };
     run.stats.runs += 1;
     let evo = Evo { reg: &cat.reg, fams: &cat.fams };
     let focus = cfg.focus.as_str();
@@ -360,11 +366,32 @@ pub fn run(cat: &Catalog, cfg: &Config, stats: &mut Stats, run_seed: u64) -> Vec
 
     // C12: the container matrix - what one container wrote, read as every other one of its group
     if focus == "C12" {
+        let multi = sw.chance(1, 8) && cfg.unordered;
+        let mut gen_m = Gen::new(&cat.reg, size);
+        if multi {
+            gen_m.max_hash_elems = 6;
+            run.unordered_run = true;
+            run.stats.count("probe.unordered_run_multi_element_hash_containers");
+            run.trace.push("hash containers written by the real encoder hold up to 6 elements in this run".into());
+        }
         for _ in 0..4 {
             let group = sw.pick(&cat.matrix);
             let s_e = &cat.entries[*sw.pick(group)];
             let d_e = &cat.entries[*sw.pick(group)];
-            let val = gen.val(&s_e.ty, &mut wl);
+            let val = gen_m.val(&s_e.ty, &mut wl);
+            // several elements out of a hash container arrive in an order of the writer's process:
+            // only targets that have no order of their own can be judged
+            let hash_source = matches!(&s_e.ty, Ty::Seq(_, SeqKind::HashSet) | Ty::Map(_, _, MapKind::Hash));
+            let many = match &val {
+                Val::Seq(xs) => xs.len() > 1,
+                Val::Map(xs) => xs.len() > 1,
+                _ => false,
+            };
+            let unordered_target = matches!(&d_e.ty, Ty::Seq(_, SeqKind::HashSet | SeqKind::BTreeSet) | Ty::Map(..));
+            if hash_source && many && !unordered_target {
+                run.stats.count("excluded.hash_source_into_ordered_target");
+                continue;
+            }
             let peer = sw.chance(1, 3);
             let bytes = if peer {
                 Some(ref_encode(&cat.reg, &s_e.ty, &val, Forms::mixed(wl.derive("forms"))))
